@@ -126,6 +126,10 @@ pub fn make_case(class: u64, idx: u64, seed: u64) -> Case {
     if r.chance(1, 8) {
         password = String::new();
     }
+    if idx % 16 == 5 && class != 6 && class != 1 {
+        // domains with a meaning of their own to a logon dialog: "this computer", none, the default workgroup
+        domain = (*r.pick(&[".", "", "..", ".\\", "WORKGROUP", "localhost"])).to_string();
+    }
     if class == 0 && idx % 8 == 3 {
         // characters a careless reader would trim are part of the password: line terminators, blanks, tabs, NUL at either end
         let edge = *r.pick(&["\n", "\r\n", "\r", " ", "\t", "\u{0}", "\n\n", " \n"]);
